@@ -12,4 +12,4 @@ def run(tier, seed, replay):
         "Stake.tla states pool-backs-ledger per pool, lock-step for SDK-native operations, Take (escrow / fee from stake: equal amounts leave ledger and pools, per-backer record sums to it) and PutBack (<= 1 smallest unit per returned entry stays in the pool). Histories on the production app with the REAL staking keeper (delegate/undelegate/redelegate, validators leaving and re-entering the bonded set through 100% slashes, disputes with all outcomes, fee from bond, refunds, tip withdrawals) are projected after every operation (sum of validator tokens by status, unbonding entries, pool balances, delegation shares, escrow records) and validated by TLC against Stake_Trace.",
         ["the SDK staking module's own share arithmetic is observed, not re-modelled", "MaxValidators is the SDK default; validators leave the bonded set only through slashing to (near) zero or undelegation",
          "K in PutBack(K) is bounded by the number of per-backer entries recorded before the event (+1)"],
-        scenarios=("Stake_Trace", "stake,dispute"))
+        scenarios=("Stake_Trace", "stake,dispute", ["-valslash"]))
